@@ -6,7 +6,7 @@ ID = "C10"
 LEVEL = "exploration"
 RULE = ("network R-p1-J1-p2-J2-p3-T (+ parallel p4 so that closing p2 isolates nothing) with a demand pattern, 8 h, hourly steps, "
         "carrying each ONE of the features {none, time control, off-grid time control, clock-time control with start_clocktime, "
-        "tank-level control pair, pressure control, rule on time, rule on level with ELSE, rule true only in an early window, "
+        "tank-level control pair, pressure control, rule on time, rule on level with ELSE, rule on a junction pressure with ELSE, rule true only in an early window, "
         "rule with a <= time bound, leak window spanning the pause, PDD, TCV with a setting control, 30-min hydraulic step, a dead end that is isolated / reconnected / isolated again}; "
         "histories: EVERY subset of <= 1 (quick) / <= 2 (thorough; <= 3 on three features) pause instants of the hourly grid x "
         "pickle round trip {no, after every pause} x {new simulator object per part}; thorough adds all pairs of features with "
@@ -50,6 +50,10 @@ def feature(s, f):
     elif f == "rule_level_else":
         node(s, "T")["diam"] = 5.0
         c += [{"kind": "level", "node": "T", "rel": ">", "thr": 3.6, "link": "p2", "value": "CLOSED", "else_value": "OPEN", "rule": True, "prio": 2}]
+    elif f == "rule_pressure":
+        # a rule on a solved quantity: the junction pressure follows the hourly demand pattern and crosses the threshold at
+        # hydraulic steps, so the rule sees the new state one rule timestep after the solve
+        c += [{"kind": "pressure", "node": "J2", "rel": "<", "thr": 42.0, "link": "p4", "value": "CLOSED", "else_value": "OPEN", "rule": True, "prio": 3}]
     elif f == "rule_early":
         # a rule whose condition holds only in an early window, undone later by a time control
         c += [{"kind": "time", "rel": "<", "t": 2 * H, "link": "p2", "value": "CLOSED", "rule": True, "prio": 3},
@@ -77,7 +81,7 @@ def feature(s, f):
 
 
 FEATURES = ["none", "time", "time_offgrid", "clock", "level_pair", "pressure", "rule_time", "rule_level_else", "rule_early", "rule_le",
-            "leak", "pdd", "tcv_setting", "hyd30", "reconnect"]
+            "leak", "pdd", "tcv_setting", "hyd30", "reconnect", "rule_pressure"]
 
 
 def cases(tier):
